@@ -95,7 +95,7 @@ Qed.
 
 (* preservation of the invariant: the cursor moves forward over non-NUL bytes, the buffer is
    normalised on [lo,hi) inside the bytes moved over (lo = hi: unchanged), start is anywhere <= pos *)
-Lemma xinv_move d s zr lo hi e i t a :
+Lemma xinv_move d s zr lo hi e i p t a :
   xinv d s ->
   lbuf zr = norm_range (lbuf (xr s)) lo hi -> lpos (xr s) <= lo <= hi -> hi <= lpos zr -> lpos zr <= lx_len (xr s) ->
   nzr (lbuf (xr s)) (lpos (xr s)) (lpos zr) ->
@@ -103,7 +103,7 @@ Lemma xinv_move d s zr lo hi e i t a :
   (e = true -> getz (lbuf zr) (lpos zr) = 0 /\ lpos zr < lx_len (xr s)) ->
   (lstart zr = lpos zr \/ (i = true /\ getz (lbuf zr) (lpos zr) = 0)) ->
   (i = false -> a = None) ->
-  xinv d (mkX zr e i t a).
+  xinv d (mkX zr e i p t a).
 Proof.
   intros I Hb Hlo Hhi Hp Hz Hst He Hs Ha.
   pose proof (i_wf d s I) as W. pose proof (wf_range _ W) as Hr. destruct (wf_buf _ W) as (b & Eb & Lb).
@@ -133,12 +133,12 @@ Lemma norm_range_id_eq b b' p : b' = b -> b' = norm_range b p p.
 Proof. intros ->. symmetry. apply norm_range_empty. Qed.
 
 (* a token was returned: the new cursor is [skip zf] *)
-Lemma xinv_token d s zf lo hi i t a :
+Lemma xinv_token d s zf lo hi i p t a :
   xinv d s -> getz (lbuf (xr s)) (lpos (xr s)) <> 0 ->
   lbuf zf = norm_range (lbuf (xr s)) lo hi -> lpos (xr s) <= lo <= hi -> hi <= lpos zf -> lpos zf <= lx_len (xr s) ->
   nzr (lbuf (xr s)) (lpos (xr s)) (lpos zf) ->
   (i = false -> a = None) ->
-  xinv d (mkX (skip zf) (xerr s) i t a).
+  xinv d (mkX (skip zf) (xerr s) i p t a).
 Proof.
   intros I Hnz Hb Hlo Hhi Hp Hz Ha. pose proof (wf_range _ (i_wf d s I)) as Hr.
   apply (xinv_move d s (skip zf) lo hi); cbn [lbuf lpos lstart skip]; try assumption; try lia.
@@ -298,7 +298,7 @@ Qed.
 Lemma error_facts d s tok s' : xinv d s -> next s = Some (TError, tok, s') ->
   tok = None /\ adv (xr s) (xr s') /\ getz (lbuf (xr s')) (lpos (xr s')) = 0 /\
   ws_run d (lpos (xr s)) (lpos (xr s')) /\ (lpos (xr s) < lpos (xr s') -> xin s = true) /\
-  s' = mkX (xr s') (null_err (xr s') (xerr s)) (xin s) None (if xin s then None else xattr s).
+  s' = mkX (xr s') (null_err (xr s') (xerr s)) (xin s) (xpi s) None (if xin s then None else xattr s).
 Proof.
   intros Inv Hn. pose proof (i_wf d s Inv) as W. pose proof (next_inv _ _ _ _ W Hn) as V.
   pose proof (i_unread d s Inv) as Hu. clear Hn.
